@@ -9,6 +9,7 @@ import (
 	"os"
 	"path"
 	"path/filepath"
+	"sort"
 	"strings"
 	"sync"
 
@@ -230,6 +231,12 @@ func (db *MultiBucketBackend) getBucketWithArbitraryPrefixLocked(bucket string, 
 	}); err != nil {
 		return nil, err
 	}
+
+	// Walk visits directories depth first, which is not the byte order of the
+	// keys ('a/b' would come before 'a-b'); S3 lists keys in byte order.
+	sort.Slice(response.Contents, func(i, j int) bool {
+		return response.Contents[i].Key < response.Contents[j].Key
+	})
 
 	return response, nil
 }
